@@ -361,7 +361,7 @@ impl Check for C13 {
     }
     fn cases(&self, thorough: bool) -> usize {
         if thorough {
-            150_000
+            120_000
         } else {
             4_000
         }
